@@ -51,7 +51,7 @@ def HQ (P : Params) : Prop := W P + F P < 2 * P.T
 instance (P : Params) : Decidable (HQ P) := by unfold HQ; infer_instance
 
 /-- `next k`: the k-th next step; the fast-recovery steps late/redo/down are `next k` with reserved `k`
-(the driver uses 253/254/255 as the Go code does: `late = 253, redo = 254, down = 255`). -/
+(the driver maps the Go step number `s ≥ 3` to `next (s - 3)`, so `late/redo/down` = `next 250/251/252`). -/
 inductive Step | soft | cert | next (k : Nat)
   deriving DecidableEq, Repr
 
@@ -92,7 +92,28 @@ def Equivocated (h : List Ev) (n : Node) (p : Nat) (s : Step) : Prop :=
   ∃ a ∈ votes h, ∃ b ∈ votes h, a.n = n ∧ a.p = p ∧ a.s = s ∧ b.n = n ∧ b.p = p ∧ b.s = s ∧ a.x ≠ b.x
 
 instance (h n p s x) : Decidable (VotedFor h n p s x) := by unfold VotedFor; infer_instance
-instance (h n p s) : Decidable (Equivocated h n p s) := by unfold Equivocated; infer_instance
+
+/-- the values `n` voted for at `(p, s)` -/
+def castAt (h : List Ev) (n : Node) (p : Nat) (s : Step) : List (Option Val) :=
+  ((votes h).filter (fun v => v.n == n && v.p == p && v.s == s)).map (·.x)
+
+/-- linear-time test of `Equivocated` -/
+def equivocatedB (h : List Ev) (n : Node) (p : Nat) (s : Step) : Bool :=
+  let c := castAt h n p s
+  c.any (fun a => c.any (fun b => a != b))
+
+theorem equivocatedB_iff (h : List Ev) (n : Node) (p : Nat) (s : Step) :
+    equivocatedB h n p s = true ↔ Equivocated h n p s := by
+  simp only [equivocatedB, castAt, Equivocated, List.any_eq_true, List.mem_map, List.mem_filter,
+    Bool.and_eq_true, beq_iff_eq, bne_iff_ne]
+  constructor
+  · rintro ⟨_, ⟨a, ⟨ha, ⟨h1, h2⟩, h3⟩, rfl⟩, _, ⟨b, ⟨hb, ⟨h4, h5⟩, h6⟩, rfl⟩, hne⟩
+    exact ⟨a, ha, b, hb, h1, h2, h3, h4, h5, h6, hne⟩
+  · rintro ⟨a, ha, b, hb, h1, h2, h3, h4, h5, h6, hne⟩
+    exact ⟨_, ⟨a, ⟨ha, ⟨h1, h2⟩, h3⟩, rfl⟩, _, ⟨b, ⟨hb, ⟨h4, h5⟩, h6⟩, rfl⟩, hne⟩
+
+instance (h n p s) : Decidable (Equivocated h n p s) :=
+  decidable_of_iff _ (equivocatedB_iff h n p s)
 
 /-- membership test of the support of `(p, s, x)`: voters for `x` plus all equivocators of `(p, s)` -/
 def inSupp (h : List Ev) (p : Nat) (s : Step) (x : Option Val) (n : Node) : Bool :=
@@ -110,13 +131,20 @@ def certQ (P : Params) (h : List Ev) (p : Nat) (v : Val) : Prop := Q P h p .cert
 instance (P h p v) : Decidable (softQ P h p v) := by unfold softQ; infer_instance
 instance (P h p v) : Decidable (certQ P h p v) := by unfold certQ; infer_instance
 
-/-- the next-step numbers that occur in votes of `h` -/
-def nextKs (h : List Ev) : List Nat :=
-  (votes h).filterMap fun v => match v.s with | .next k => some k | _ => none
+def insertNew (a : Nat) (l : List Nat) : List Nat := if a ∈ l then l else a :: l
 
-/-- some next step (that has votes) reaches the threshold for `y` -/
+/-- the next-step numbers that occur in votes of period `p` (without repetitions) -/
+def nextKs : List Ev → Nat → List Nat
+  | [], _ => []
+  | .vote v :: h, p =>
+      match v.s with
+      | .next k => if v.p = p then insertNew k (nextKs h p) else nextKs h p
+      | _ => nextKs h p
+  | _ :: h, p => nextKs h p
+
+/-- some next step of period `p` (that has votes) reaches the threshold for `y` -/
 def nextQ (P : Params) (h : List Ev) (p : Nat) (y : Option Val) : Prop :=
-  ∃ k ∈ nextKs h, Q P h p (.next k) y
+  ∃ k ∈ nextKs h p, Q P h p (.next k) y
 instance (P h p y) : Decidable (nextQ P h p y) := by unfold nextQ; infer_instance
 
 /-- the value a period can *stage* (`proposalTracker.Staging` is set by the soft **or** cert threshold of
@@ -124,8 +152,14 @@ the period) -/
 def stagedQ (P : Params) (h : List Ev) (p : Nat) (v : Val) : Prop := softQ P h p v ∨ certQ P h p v
 instance (P h p v) : Decidable (stagedQ P h p v) := by unfold stagedQ; infer_instance
 
-/-- non-⊥ values occurring in votes -/
-def vals (h : List Ev) : List Val := (votes h).filterMap (·.x)
+/-- non-⊥ values occurring in votes (without repetitions) -/
+def vals : List Ev → List Val
+  | [] => []
+  | .vote v :: h =>
+      match v.x with
+      | some a => insertNew a (vals h)
+      | none => vals h
+  | _ :: h => vals h
 
 /-- two different values are staged for period `p` -/
 def Conflict1 (P : Params) (h : List Ev) (p : Nat) : Prop :=
@@ -133,8 +167,25 @@ def Conflict1 (P : Params) (h : List Ev) (p : Nat) : Prop :=
 /-- two different non-⊥ values have next quorums in period `p - 1` -/
 def Conflict2 (P : Params) (h : List Ev) (p : Nat) : Prop :=
   0 < p ∧ ∃ a ∈ vals h, ∃ b ∈ vals h, a ≠ b ∧ nextQ P h (p - 1) (some a) ∧ nextQ P h (p - 1) (some b)
-instance (P h p) : Decidable (Conflict1 P h p) := by unfold Conflict1; infer_instance
-instance (P h p) : Decidable (Conflict2 P h p) := by unfold Conflict2; infer_instance
+
+/-- `l` contains two different elements of `l` satisfying `f` (each `f a` evaluated once) -/
+def twoDistinct (l : List Val) (f : Val → Bool) : Bool :=
+  let sv := l.filter f
+  sv.any (fun a => sv.any (fun b => a != b))
+
+theorem twoDistinct_iff (l : List Val) (f : Val → Bool) :
+    twoDistinct l f = true ↔ ∃ a ∈ l, ∃ b ∈ l, a ≠ b ∧ f a = true ∧ f b = true := by
+  simp only [twoDistinct, List.any_eq_true, List.mem_filter, bne_iff_ne]
+  constructor
+  · rintro ⟨a, ⟨ha, fa⟩, b, ⟨hb, fb⟩, hne⟩; exact ⟨a, ha, b, hb, hne, fa, fb⟩
+  · rintro ⟨a, ha, b, hb, hne, fa, fb⟩; exact ⟨a, ⟨ha, fa⟩, b, ⟨hb, fb⟩, hne⟩
+
+instance (P h p) : Decidable (Conflict1 P h p) :=
+  decidable_of_iff (twoDistinct (vals h) (fun a => decide (stagedQ P h p a)) = true) (by
+    rw [twoDistinct_iff]; simp only [decide_eq_true_eq]; rfl)
+instance (P h p) : Decidable (Conflict2 P h p) :=
+  decidable_of_iff (0 < p ∧ twoDistinct (vals h) (fun a => decide (nextQ P h (p - 1) (some a))) = true) (by
+    rw [twoDistinct_iff]; simp only [decide_eq_true_eq]; rfl)
 
 /-! ### local state -/
 
@@ -204,9 +255,18 @@ def RUnique (v : Vote) : Prop :=
 /-- a node votes in the period it is in (`pseudonodeAction{Period: p.Period}`) -/
 def RPeriod (v : Vote) : Prop := (localOf pre v.n).period = v.p
 
-/-- soft and cert votes are issued while `p.Step ≤ cert`, i.e. before any next vote of the period -/
+/-- a soft vote is issued while `p.Step = soft`, i.e. before any next vote of the period.
+(For the fast-recovery votes late/redo/down — which `issueFastVote` casts whatever `p.Step` is — this needs
+the timer-order assumption: no `fastTimeout` is handled before the period's soft timeout.) -/
 def RBeforeNext (v : Vote) : Prop :=
   ∀ v' ∈ votes pre, v'.n = v.n → v'.p = v.p → v'.s.isNext = false
+
+/-- a cert vote is issued while `p.Step ≤ cert`: no next vote of the period precedes it — except a
+fast-recovery `late` vote, which carries the same (committable) value.  Stated as: every earlier next-type
+vote of the node in this period is for the same value.  (For `redo`/`down` this needs the timer-order
+assumption: no `fastTimeout` is handled while `p.Step ≤ cert` unless the value is already committable.) -/
+def RCertAfterNext (v : Vote) : Prop :=
+  ∀ v' ∈ votes pre, v'.n = v.n → v'.p = v.p → v'.s.isNext = true → v'.x = v.x
 
 /-- `issueSoftVote`: never ⊥; the starting value if the previous period's cache is `(false, some y)` -/
 def RSoftStart (v : Vote) : Prop :=
@@ -254,6 +314,7 @@ instance (v) : Decidable (RUnique lenient P pre v) := by
   unfold RUnique; cases v.s <;> infer_instance
 instance (v) : Decidable (RPeriod pre v) := by unfold RPeriod; infer_instance
 instance (v) : Decidable (RBeforeNext pre v) := by unfold RBeforeNext; infer_instance
+instance (v) : Decidable (RCertAfterNext pre v) := by unfold RCertAfterNext; infer_instance
 instance (v) : Decidable (RSoftStart pre v) := by unfold RSoftStart; infer_instance
 instance (v) : Decidable (RCertStaged P pre v) := by
   unfold RCertStaged; cases v.x <;> infer_instance
@@ -274,7 +335,7 @@ def okVote (v : Vote) : Prop :=
   RUnique lenient P pre v ∧ RPeriod pre v ∧
   match v.s with
   | .soft => RBeforeNext pre v ∧ RSoftStart pre v
-  | .cert => RBeforeNext pre v ∧ RCertStaged P pre v
+  | .cert => RCertAfterNext pre v ∧ RCertStaged P pre v
   | .next _ => RNextOwnCert lenient P pre v ∧ RNextVal P pre v
 
 /-- event `e` is allowed after history `pre` -/
@@ -292,7 +353,7 @@ def rulesB : Ev → List (String × Bool)
         [("vote-unique", decide (RUnique lenient P pre v)), ("vote-period", decide (RPeriod pre v))] ++
         (match v.s with
          | .soft => [("soft-after-next", decide (RBeforeNext pre v)), ("soft-start", decide (RSoftStart pre v))]
-         | .cert => [("cert-after-next", decide (RBeforeNext pre v)), ("cert-staged", decide (RCertStaged P pre v))]
+         | .cert => [("cert-after-next", decide (RCertAfterNext pre v)), ("cert-staged", decide (RCertStaged P pre v))]
          | .next _ => [("next-own-cert", decide (RNextOwnCert lenient P pre v)),
                        ("next-value", decide (RNextVal P pre v))])
       else []
